@@ -25,7 +25,50 @@ MOD = "tensora.ir._peephole"
 # ------------------------------------------------------------------------------------------------
 # abstract evaluation of a peephole function body
 # ------------------------------------------------------------------------------------------------
+BUILDERS: dict = {}  # method name of ir.ast.Expression -> IR class it builds (filled by run())
+
+
+def builder_methods(ix):
+    """Methods of ir.ast.Expression that are exactly `p = to_expression(p); return Cls(self, p)` (and
+    to_expression returns an Expression argument unchanged): calling one on IR operands is the bare
+    constructor.  Any other body (e.g. one that regroups literals) is left uninterpreted."""
+    tree = ix.module("tensora.ir.ast")
+    ident = False
+    for fn in tree.body:
+        if isinstance(fn, ast.FunctionDef) and fn.name == "to_expression" and len(fn.body) == 1 and isinstance(fn.body[0], ast.Match):
+            m = fn.body[0]
+            c0 = m.cases[0]
+            ident = (
+                ast.unparse(m.subject) == fn.args.args[0].arg
+                and ast.unparse(c0.pattern) == "Expression()"
+                and c0.guard is None
+                and len(c0.body) == 1
+                and ast.unparse(c0.body[0]) == f"return {fn.args.args[0].arg}"
+            )
+    out = {}
+    if not ident:
+        return out
+    for cls in tree.body:
+        if isinstance(cls, ast.ClassDef) and cls.name == "Expression":
+            for fn in cls.body:
+                if not isinstance(fn, ast.FunctionDef) or len(fn.args.args) != 2:
+                    continue
+                me, p = fn.args.args[0].arg, fn.args.args[1].arg
+                body = [st for st in fn.body if not (isinstance(st, ast.Expr) and isinstance(st.value, ast.Constant))]
+                if len(body) == 2 and ast.unparse(body[0]) == f"{p} = to_expression({p})":
+                    body = body[1:]
+                if len(body) == 1 and isinstance(body[0], ast.Return) and isinstance(body[0].value, ast.Call):
+                    c = body[0].value
+                    if isinstance(c.func, ast.Name) and not c.keywords and [ast.unparse(a) for a in c.args] in ([me, p], [me, f"to_expression({p})"]):
+                        out[fn.name] = c.func.id
+    return out
+
+
 def term(e, env, ircls):
+    if isinstance(e, ast.Call) and isinstance(e.func, ast.Attribute) and e.func.attr in BUILDERS and len(e.args) == 1 and not e.keywords:
+        recv, arg = term(e.func.value, env, ircls), term(e.args[0], env, ircls)
+        if recv[0] not in ("?", "CONST", "LIST") and arg[0] not in ("?", "CONST", "LIST"):
+            return ("NEW", BUILDERS[e.func.attr], (recv, arg))
     if isinstance(e, ast.Name):
         if e.id in env:
             return env[e.id]
@@ -429,6 +472,8 @@ def run(ctx):
     import tensora.ir.ast as IR
 
     ircls = {n for n in dir(IR) if isinstance(getattr(IR, n), type)}
+    BUILDERS.clear()
+    BUILDERS.update(builder_methods(ix))
     dispatchers = {
         "peephole_expression": (P.peephole_expression, IR.Expression),
         "peephole_statement": (P.peephole_statement, IR.Statement),
